@@ -339,28 +339,55 @@ theorem simK (t : Tree) : ∀ (x : Ctx) (s : ISt) (K : KSt), RK s K →
         rcases hb with ⟨K1, e1⟩ | ⟨hh, K1, e1⟩
         · rw [e1]; exact Or.inl ⟨K1, rfl⟩
         · exact absurd hh (by simp)
-  | native o fl cb ih =>
+  | native inner o fl cb k ih ihk =>
     intro x s K hR
     simp only [im, spK]
     split
-    · generalize hw : (x.inTry && (x.f.and fl).mut) = wrapped
+    · generalize (if inner = true then x.f else x.f.and fl) = f'
+      generalize hw : (!inner && x.inTry && f'.mut) = wrapped
       have hR0 : RK (if wrapped = true then s.push else s) K := by
         split
         · exact R_push hR
         · exact hR
       have hev0 : (if wrapped = true then s.push else s).ev = s.ev := by
         split <;> simp [ISt.push]
-      have hexc0 : (if wrapped = true then s.push else s).exc = s.exc := by
-        split <;> simp [ISt.push]
       have hbel0 : (if wrapped = true then s.push else s).below = (if wrapped = true then s.top :: s.below else s.below) := by
         split <;> simp [ISt.push]
       generalize hs0 : (if wrapped = true then s.push else s) = s0 at *
       have hv0 : s0.view = K.σ := hR0.1
       rw [hv0]
-      cases hn : natStep o x.c (x.f.and fl) K.σ.get with
+      cases hn : natStep o x.c f' K.σ.get with
       | none => exact Or.inl ⟨K, rfl⟩
       | some out =>
         simp only
+        have tail : ∀ (s2 : ISt) (K2 : KSt), RK s2 K2 → s2.below = s0.below → s.ev <+: s2.ev →
+            RelK x.h x.inTry s
+              (match im k ⟨x.c, f', false, x.h⟩ s2 with
+                | .norm s3 => .norm (s3.unload wrapped s.ev.length)
+                | .thrown s3 => .fault s3
+                | .fault s3 => .fault s3)
+              (match spK k x.c f' false K2 with
+                | .norm s3 => if (wrapped && s3.exc) = true then Res.norm { K with exc := true, dev := true } else .norm s3
+                | .thrown s3 => .fault s3
+                | .fault s3 => .fault s3) := by
+          intro s2 K2 r2 b2 p2
+          have hk := ihk ⟨x.c, f', false, x.h⟩ s2 K2 r2
+          simp only at hk
+          cases hrk : im k ⟨x.c, f', false, x.h⟩ s2 with
+          | norm s3 =>
+            rw [hrk] at hk
+            obtain ⟨K3, k1, k2, k3, k4⟩ := hk
+            rw [k1]
+            exact unloadK hR k2 ((k3.trans b2).trans hbel0) (p2.trans k4)
+          | thrown s3 =>
+            rw [hrk] at hk
+            obtain ⟨_, K3, k1, _⟩ := hk
+            rw [k1]; exact Or.inl ⟨K3, rfl⟩
+          | fault s3 =>
+            rw [hrk] at hk
+            rcases hk with ⟨K3, k1⟩ | ⟨_, K3, k1⟩
+            · rw [k1]; exact Or.inl ⟨K3, rfl⟩
+            · rw [k1]; exact Or.inl ⟨K3, rfl⟩
         have hR1 : RK { s0 with top := out.ws ++ s0.top, ev := s0.ev ++ out.evs }
             { K with σ := out.ws ++ K.σ, ev := K.ev ++ out.evs } := by
           refine ⟨?_, ?_, hR0.2.2⟩
@@ -370,26 +397,20 @@ theorem simK (t : Tree) : ∀ (x : Ctx) (s : ISt) (K : KSt), RK s K →
             have : s0.ev = K.ev := hR0.2.1
             rw [this]
         have hp1 : s.ev <+: s0.ev ++ out.evs := by rw [hev0]; exact List.prefix_append _ _
+        simp only [imPhase, spKPhase]
         cases hcb : out.cb with
         | none =>
           simp only
-          have hx : K.exc = s.exc := hR.2.2.symm
-          have := unloadK (s := s) (K := K) (wrapped := wrapped) hR hR1 hbel0 hp1
-          simp only at this
-          obtain ⟨K', k1, k2, k3, k4⟩ := this
-          refine ⟨K', ?_, k2, k3, k4⟩
-          rw [← k1]
-          cases hwe : (wrapped && K.exc) with
-          | true => simp; cases K; simp_all
-          | false => simp
+          exact tail _ _ hR1 rfl hp1
         | some to =>
           simp only
-          split
-          · exact Or.inl ⟨_, rfl⟩
-          have hb := ih ⟨to, x.f.and fl, false, x.h⟩ { s0 with top := out.ws ++ s0.top, ev := s0.ev ++ out.evs }
+          by_cases hab : out.cbAbort = true
+          · simp only [hab, if_true]; exact Or.inl ⟨_, rfl⟩
+          simp only [hab, if_false, Bool.false_eq_true]
+          have hb := ih ⟨to, f', false, x.h⟩ { s0 with top := out.ws ++ s0.top, ev := s0.ev ++ out.evs }
             { K with σ := out.ws ++ K.σ, ev := K.ev ++ out.evs } hR1
           simp only at hb
-          cases hr : im cb ⟨to, x.f.and fl, false, x.h⟩ { s0 with top := out.ws ++ s0.top, ev := s0.ev ++ out.evs } with
+          cases hr : im cb ⟨to, f', false, x.h⟩ { s0 with top := out.ws ++ s0.top, ev := s0.ev ++ out.evs } with
           | norm s2 =>
             rw [hr] at hb
             obtain ⟨K2, e1, e2, e3, e4⟩ := hb
@@ -401,8 +422,7 @@ theorem simK (t : Tree) : ∀ (x : Ctx) (s : ISt) (K : KSt), RK s K →
             | true => simp only [if_true]; exact Or.inl ⟨_, rfl⟩
             | false =>
               simp only [Bool.false_eq_true, if_false]
-              obtain ⟨u1, u2, u3, _⟩ := unload_norm (s := s) (wrapped := wrapped) s.ev.length e2 (e3.trans hbel0) he2
-              exact ⟨K2, rfl, u1, u2, by rw [u3]; exact hp1.trans e4⟩
+              exact tail s2 K2 e2 e3 (hp1.trans e4)
           | thrown s2 =>
             rw [hr] at hb
             obtain ⟨_, K2, e1, _⟩ := hb
